@@ -271,7 +271,8 @@ def run(tier, work):
     print("TLC P1 OutRingImpl: %d states, %d transitions, %s" % (mc["states"], mc["transitions"], "ok" if mc["ok"] else "VIOLATED"))
     if not mc["ok"]:
         raise vlib.Broken("OutRingImpl violates its invariants:\n" + mc["out"][-2000:])
-    hists, _ = vlib.generate(SPEC, "OutRingGen", "GenQuick.cfg" if tier == "quick" else "GenThorough.cfg", work, "p2a")
+    hists, _ = vlib.generate(SPEC, "OutRingGen", "GenQuick.cfg" if tier == "quick" else "GenThorough.cfg", work, "p2a", cap=(None if tier == "quick" else 60000))
+    hists, nexh = vlib.cap_histories(hists, 60000)
     if tier == "quick":
         rq = random.Random(vlib.SEED)
         hists.sort(key=lambda h: json.dumps(h, sort_keys=True))
